@@ -16,6 +16,7 @@ import (
 	"github.com/luthersystems/elps/analysis"
 	"github.com/luthersystems/elps/astutil"
 	"github.com/luthersystems/elps/formatter"
+	"github.com/luthersystems/elps/internal/fmtraw"
 	"github.com/luthersystems/elps/lisp"
 	"github.com/luthersystems/elps/parser/rdparser"
 	"github.com/luthersystems/elps/parser/token"
@@ -559,6 +560,10 @@ func rewriteExports(exprs []*lisp.LVal, scope *analysis.Scope, assignments map[*
 			if sym := scope.LookupLocalInPackage(node.Str, currentPkg); sym != nil {
 				if newName, ok := assignments[sym]; ok {
 					node.Str = newName //elps:mutates the minifier renames symbols in the AST it parsed for this run; the tree is tool-owned and never shared with an evaluator
+					if m := fmtraw.Meta(node); m != nil {
+						// a string literal is printed from its source text
+						m.OriginalText = ""
+					}
 				}
 			}
 		}
